@@ -75,7 +75,9 @@ P = {
             "escapes, bare '?'; queries with repeated, encoded, empty, unparsable parameters; header names from pools AND fresh names "
             "(Content-Type, Traceparent, Via, X-<random token>), random casing, colliding with pipeline header names; values incl. the empty "
             "string; X-Forwarded-* / Forwarded (also in two field lines) / Connection fields, CORS preflights; 11 methods (incl. lower-case `get`, PROPFIND, M-SEARCH, TRACE); bodies 0 B .. 2 MiB "
-            "with Content-Length or chunked framing; kept-alive connections re-used) from 5 loopback source addresses against 3 "
+            "with Content-Length or chunked framing, 12 % of the bodies <= 4 KiB NOT arriving intact (malformed chunk-size line after 0..n good "
+            "chunks, write side closed before the last chunk, fewer bytes than Content-Length; with and without the pipeline reading the body); "
+            "kept-alive connections re-used) from 5 loopback source addresses against 3 "
             "trusted_proxies configurations x rule (allow_encoded_slashes off/on/no_decode, forward_to host by address or name with every "
             "combination of scheme / strip_path_prefix (hit, miss, inside an escape) / add_path_prefix / strip_query_parameters biased to "
             "present keys) x pipeline output (headers in any casing incl. empty values, Host, Cookie, forwarding names, names of client "
@@ -115,7 +117,7 @@ P = {
                   "differs; `on` with a path net/url would re-spell; add_path_prefix not a valid encoded path; tracing on and a pipeline trace "
                   "header; a trusted X-Forwarded-Uri that is not a valid encoded path (C15-F9, hypothesis oracle_ok)), what the model forwards satisfies spec_ok — a predicate on the OBSERVATION written from the statement only: "
                   "scheme, Host, wire path = add ++ (raw path minus strip prefix) byte for byte, kept query settings byte for byte in order, "
-                  "method, body, and per header name: pipeline values (empty ones included) replace client values in any casing, "
+                  "method, body (a body that does not arrive intact is never passed on as a complete request), and per header name: pipeline values (empty ones included) replace client values in any casing, "
                   "X-Forwarded-Method/-Uri/-Path never pass, X-Forwarded-For or Forwarded is the whole received chain extended by the peer, "
                   "client fields nobody touches arrive as sent. Separately: no double encoding for every setting/configuration (also inside the "
                   "guards), removed query parameters key by key for EVERY query, ParseQuery/Encode round trip, field names in any casing, "
